@@ -9,6 +9,14 @@ from typing import List, Tuple, Type, Generator, Optional
 assert sys.version_info >= (3, 11)
 
 from ._lowlevel import FrameDetails
+import os
+
+if os.environ.get("STACKSCOPE_VERIF"):
+    from ._verif import hook as _verif_hook
+else:
+
+    def _verif_hook(*args: object) -> None:
+        pass
 
 
 # Reference for the frame changes in 3.11:
@@ -157,6 +165,7 @@ def inspect_frame(frame: FrameType) -> FrameDetails:
     # executing on another thread.
     for _ in range(10):
         lasti_before = frame.f_lasti
+        _verif_hook("inspect_frame:lasti", frame)
         for start, end, _, depth, _ in _parse_exception_table(co):
             if start <= lasti_before <= end:
                 handler_depth = depth
@@ -200,6 +209,7 @@ def inspect_frame(frame: FrameType) -> FrameDetails:
             stack_ptr = (ctypes.py_object * stack_len).from_address(
                 ctypes.addressof(iframe_raw) + stack_start_offset
             )
+            _verif_hook("inspect_frame:pre_stack", frame)
             assert frame.f_lasti == lasti_before
 
             # Extract object pointers for it. This is by far the most
@@ -215,6 +225,7 @@ def inspect_frame(frame: FrameType) -> FrameDetails:
             details.stack = []
             if frame_owner != FRAME_OWNED_BY_FRAME_OBJECT:
                 for i in range(stack_len):
+                    _verif_hook("inspect_frame:slot", frame, i)
                     # Assert that the extent of stack validity still matches
                     # what we thought before. (Note it's fine if the function
                     # has continued execution and happened to wind up in the
@@ -236,6 +247,7 @@ def inspect_frame(frame: FrameType) -> FrameDetails:
 
                     details.stack.append(obj)
 
+            _verif_hook("inspect_frame:post_stack", frame)
             assert frame.f_lasti == lasti_before
 
         except AssertionError:
